@@ -28,7 +28,9 @@ def handle (toks : List String) : String :=
   | ["sweep", "cli", ns] =>
     if (ns.splitOn ",").all (fun n => (parseCodes? n).isSome) then "clean\tclean" else "bad-op\t-"
   | ["script", c, m, s] =>
-    let okMode := if c == "cli" then m == "repl" || m == "cmd" || m == "file" else m == "eval" || m == "evali"
+    -- a cli mode may carry further command line flags: `repl:-demo`
+    let m0 := (m.splitOn ":").headD ""
+    let okMode := if c == "cli" then m0 == "repl" || m0 == "cmd" || m0 == "file" else m == "eval" || m == "evali"
     if okCfg c && okMode && (parseCodes? s).isSome then "clean\tclean" else "bad-op\t-"
   | _ => "bad-op\t-"
 
